@@ -270,3 +270,7 @@ def plan(tier, seed, switches):
                  dict(fmt="vef", base_index=1, step=11), dict(fmt="hrs", base_index=2, step=257), dict(fmt="mge", base_index=2, step=263),
                  dict(fmt="vef", base_index=2, step=131), dict(fmt="cm3", base_index=2, step=251)])]
     return tasks
+
+
+def evidence_extra(stats):
+    return {"exhaustive_part": "every prefix of the small synthetic HRS / PIX / MAX files (and the first 120 bytes of the compressed MGE / RAT / VEF / CM3 files; all of them in the thorough tier) is enumerated"}
